@@ -8,12 +8,12 @@
    (u1) Unmarshal of ≥ size bytes = ok, fields = the specified fields of the first `size` bytes,
         whatever the receiver held before (the expected fields are computed from the input bytes only);
    (u2) Unmarshal of fewer bytes = an error;   (u3) no panic (implied: a panic is neither ok nor err).
-  What "the specification" says is `Spec.Ext` (Rtp/Spec/ExtLayouts.lean), not the model.
+  What "the specification" says is `Spec.ExtLayouts` (Rtp/Spec/ExtLayouts.lean), not the model.
 -/
 import Rtp.Model.ExtCodecs
 import Rtp.Spec.ExtLayouts
 namespace Rtp.Pred.C17
-open Rtp Rtp.Model.Ext Rtp.Spec.Ext
+open Rtp Rtp.Model.ExtCodecs Rtp.Spec.ExtLayouts
 
 /-- the specification side of one codec -/
 structure ExtSpec (σ : Type) where
